@@ -28,7 +28,11 @@ type fedType struct {
 	Name   string
 	Entity bool
 	Fields []*fedField
-	N      int // instances (entities)
+	N      int // instances (entities); for abstract types the number of objects of all members
+	// Abstract: "interface" (Node, implemented by every entity, field id) or "union" (AnyE, every
+	// entity); Members lists the entity types
+	Abstract string
+	Members  []string
 }
 
 func (t *fedType) field(name string) *fedField {
@@ -41,12 +45,13 @@ func (t *fedType) field(name string) *fedField {
 }
 
 type fedSpec struct {
-	NSub  int
-	Types []*fedType
-	Roots []*fedField
-	Muts  []*fedField
-	Seed  uint64
-	by    map[string]*fedType
+	Abstract bool // the configuration has the interface Node and the union AnyE over all entities
+	NSub     int
+	Types    []*fedType
+	Roots    []*fedField
+	Muts     []*fedField
+	Seed     uint64
+	by       map[string]*fedType
 }
 
 var fedEnum = []string{"RED", "GREEN", "BLUE"}
@@ -62,8 +67,32 @@ func isScalarName(n string) bool {
 }
 
 // genFedSpec draws a configuration from the workload tape.
-func genFedSpec(W *core.Tape, rich bool) *fedSpec {
+// safeName: every entity type that has a field of this name declares it with the identical type, so
+// the field can appear unaliased in fragments on different member types of an abstract selection.
+func (s *fedSpec) safeName(name string) bool {
+	var first *fedField
+	for _, t := range s.Types {
+		if !t.Entity {
+			continue
+		}
+		if f := t.field(name); f != nil {
+			if first != nil && first.Type != f.Type {
+				return false
+			}
+			if first == nil {
+				first = f
+			}
+		}
+	}
+	return true
+}
+
+// abstractMode: 0 no interfaces/unions; 1 admitted; 2 admitted, but @requires inputs must have
+// "safe" names (see the known finding C01 'conflicting types': the planner does not alias
+// same-named inputs of different types in one entity fetch).
+func genFedSpec(W *core.Tape, rich bool, abstractMode int) *fedSpec {
 	s := &fedSpec{by: map[string]*fedType{}}
+	s.Abstract = abstractMode > 0 && W.Prob(0.45)
 	s.Seed = uint64(W.Intn(1 << 16))
 	s.NSub = 2 + W.Weighted([]int{3, 3, 2})
 	nEnt := 1 + W.Weighted([]int{2, 4, 3})
@@ -88,13 +117,29 @@ func genFedSpec(W *core.Tape, rich bool) *fedSpec {
 			ents = append(ents, t)
 		}
 	}
+	if s.Abstract {
+		total := 0
+		var members []string
+		for _, e := range ents {
+			total += e.N
+			members = append(members, e.Name)
+		}
+		for _, a := range []*fedType{{Name: "Node", Abstract: "interface"}, {Name: "AnyE", Abstract: "union"}} {
+			a.N, a.Members = total, members
+			s.Types = append(s.Types, a)
+			s.by[a.Name] = a
+		}
+	}
 	for _, e := range ents {
 		nf := 2 + W.Weighted([]int{2, 3, 3, 2})
 		for k := 0; k < nf; k++ {
 			f := &fedField{Name: fmt.Sprintf("f%d", k), Owner: W.Intn(s.NSub), Parent: e.Name}
-			kinds := []int{5, 2, 1, 1, 1, 0, 4}
+			kinds := []int{5, 2, 1, 1, 1, 0, 4, 0}
 			if useValue {
 				kinds[5] = 2
+			}
+			if s.Abstract {
+				kinds[7] = 2
 			}
 			switch W.Weighted(kinds) {
 			case 0:
@@ -120,6 +165,22 @@ func genFedSpec(W *core.Tape, rich bool) *fedSpec {
 					f.Type = gTypeRef{Name: tgt.Name, List: true}
 				case 3:
 					f.Type = gTypeRef{Name: tgt.Name, List: true, NonNull: true, ItemNonNull: true}
+				}
+			case 7:
+				if !s.Abstract { // only reachable with a hand-edited / minimised tape
+					f.Type = gTypeRef{Name: "String"}
+					break
+				}
+				name := []string{"Node", "AnyE"}[W.Intn(2)]
+				switch W.Weighted([]int{3, 1, 3, 2}) {
+				case 0:
+					f.Type = gTypeRef{Name: name}
+				case 1:
+					f.Type = gTypeRef{Name: name, NonNull: true}
+				case 2:
+					f.Type = gTypeRef{Name: name, List: true}
+				case 3:
+					f.Type = gTypeRef{Name: name, List: true, NonNull: true, ItemNonNull: true}
 				}
 			}
 			e.Fields = append(e.Fields, f)
@@ -185,6 +246,9 @@ func genFedSpec(W *core.Tape, rich bool) *fedSpec {
 					if f == g || f.Owner == g.Owner || !isScalarName(f.Type.Name) || f.Type.List || reaches(f, g.Name) {
 						continue
 					}
+					if s.Abstract && abstractMode == 2 && !s.safeName(f.Name) {
+						continue
+					}
 					up := ownersOnChain(f) // owners of f and everything f needs
 					down := map[int]bool{g.Owner: true}
 					downstreamOwners(g, down, 0) // owners of g and everything that needs g
@@ -230,6 +294,13 @@ func genFedSpec(W *core.Tape, rich bool) *fedSpec {
 			s.Roots = append(s.Roots, &fedField{Name: strings.ToLower(e.Name) + "s", Type: gTypeRef{Name: e.Name, List: true, NonNull: true, ItemNonNull: true}, Owner: W.Intn(s.NSub), ArgFirst: true, Parent: "Query"})
 		}
 	}
+	if s.Abstract {
+		for _, name := range []string{"Node", "AnyE"} {
+			if W.Prob(0.7) {
+				s.Roots = append(s.Roots, &fedField{Name: strings.ToLower(name) + "s", Type: gTypeRef{Name: name, List: true, NonNull: true, ItemNonNull: true}, Owner: W.Intn(s.NSub), ArgFirst: true, Parent: "Query"})
+			}
+		}
+	}
 	// one mutation root (side effect is logged by the owning subgraph)
 	s.Muts = append(s.Muts, &fedField{Name: "touch" + ents[0].Name, Type: gTypeRef{Name: ents[0].Name}, Owner: W.Intn(s.NSub), ArgID: true, Parent: "Mutation"})
 	return s
@@ -262,7 +333,30 @@ func (s *fedSpec) external(e *fedType, sub int) map[string]bool {
 	return ext
 }
 
+// ownsAbstract: subgraph sub owns a field whose type is the interface or the union; it then declares
+// both abstract types and (at least as key-only stubs) every entity type.
+func (s *fedSpec) ownsAbstract(sub int) bool {
+	if !s.Abstract {
+		return false
+	}
+	all := append([]*fedField{}, s.Roots...)
+	for _, t := range s.Types {
+		all = append(all, t.Fields...)
+	}
+	for _, f := range all {
+		if f.Owner == sub {
+			if t := s.by[f.Type.Name]; t != nil && t.Abstract != "" {
+				return true
+			}
+		}
+	}
+	return false
+}
+
 func (s *fedSpec) hasEntity(e *fedType, sub int) bool {
+	if s.ownsAbstract(sub) {
+		return true
+	}
 	for _, f := range e.Fields {
 		if f.Owner == sub {
 			return true
@@ -283,6 +377,9 @@ func (s *fedSpec) hasEntity(e *fedType, sub int) bool {
 }
 
 func (s *fedSpec) usesValue(v *fedType, sub int) bool {
+	if v.Abstract != "" {
+		return false
+	}
 	for _, t := range s.Types {
 		for _, f := range t.Fields {
 			if f.Owner == sub && f.Type.Name == v.Name {
@@ -316,7 +413,15 @@ func (s *fedSpec) supergraphSDL() string {
 	}
 	b.WriteString("}\n")
 	for _, t := range s.Types {
-		b.WriteString("type " + t.Name + " {\n")
+		if t.Abstract != "" {
+			b.WriteString(s.abstractSDL(t))
+			continue
+		}
+		impl := ""
+		if t.Entity && s.Abstract {
+			impl = " implements Node"
+		}
+		b.WriteString("type " + t.Name + impl + " {\n")
 		if t.Entity {
 			b.WriteString("  id: ID!\n")
 		}
@@ -326,6 +431,13 @@ func (s *fedSpec) supergraphSDL() string {
 		b.WriteString("}\n")
 	}
 	return b.String()
+}
+
+func (s *fedSpec) abstractSDL(t *fedType) string {
+	if t.Abstract == "interface" {
+		return "interface " + t.Name + " {\n  id: ID!\n}\n"
+	}
+	return "union " + t.Name + " = " + strings.Join(t.Members, " | ") + "\n"
 }
 
 func (s *fedSpec) subgraphSDL(sub int) string {
@@ -353,12 +465,22 @@ func (s *fedSpec) subgraphSDL(sub int) string {
 		b.WriteString("type Mutation {\n" + strings.Join(muts, "\n") + "\n}\n")
 	}
 	for _, t := range s.Types {
+		if t.Abstract != "" {
+			if s.ownsAbstract(sub) {
+				b.WriteString(s.abstractSDL(t))
+			}
+			continue
+		}
 		if t.Entity {
 			if !s.hasEntity(t, sub) {
 				continue
 			}
 			ext := s.external(t, sub)
-			b.WriteString("type " + t.Name + ` @key(fields: "id") {` + "\n  id: ID!\n")
+			impl := ""
+			if s.ownsAbstract(sub) {
+				impl = " implements Node"
+			}
+			b.WriteString("type " + t.Name + impl + ` @key(fields: "id") {` + "\n  id: ID!\n")
 			for _, f := range t.Fields {
 				switch {
 				case f.Owner == sub:
@@ -418,6 +540,17 @@ func (s *fedSpec) gSchemaFor(sub int) *gSchema {
 	}
 	var entities []string
 	for _, t := range s.Types {
+		if t.Abstract != "" {
+			if sub >= 0 && !s.ownsAbstract(sub) {
+				continue
+			}
+			td := &gTypeDef{Name: t.Name, Kind: t.Abstract, Possible: t.Members, Fields: map[string]*gFieldDef{}}
+			if t.Abstract == "interface" {
+				td.Fields["id"] = &gFieldDef{Name: "id", Type: gTypeRef{Name: "ID", NonNull: true}}
+			}
+			sc.Types[t.Name] = td
+			continue
+		}
 		if t.Entity {
 			if sub >= 0 && !s.hasEntity(t, sub) {
 				continue
@@ -489,6 +622,31 @@ func (s *fedSpec) universeValue(typeName, id string, f *fedField) any {
 		return requiresFn(f.Name, in)
 	}
 	tgt := s.typ(f.Type.Name)
+	if tgt != nil && tgt.Abstract != "" {
+		// an object of some member type, chosen by the hash
+		pick := func(hh uint64) *gObj {
+			m := s.typ(tgt.Members[hh%uint64(len(tgt.Members))])
+			return &gObj{Type: m.Name, ID: strconv.Itoa(1 + int((hh/7)%uint64(m.N)))}
+		}
+		if f.Type.List {
+			n := int(h % 4)
+			if f.Type.NonNull && n == 0 {
+				n = 1
+			}
+			if !f.Type.NonNull && h%7 == 0 {
+				return nil
+			}
+			out := make([]any, 0, n)
+			for i := 0; i < n; i++ {
+				out = append(out, pick(s.h(typeName, id, f.Name, strconv.Itoa(i))))
+			}
+			return out
+		}
+		if !f.Type.NonNull && h%6 == 0 {
+			return nil
+		}
+		return pick(h)
+	}
 	if f.Type.List {
 		n := int(h % 4)
 		if f.Type.NonNull && n == 0 && tgt != nil {
@@ -524,6 +682,19 @@ func requiresFn(name string, in any) any {
 	return name + "(" + string(b) + ")"
 }
 
+// abstractObjects lists the objects of all member types, interleaved by id.
+func (s *fedSpec) abstractObjects(t *fedType) []any {
+	var out []any
+	for i := 1; len(out) < t.N; i++ {
+		for _, mn := range t.Members {
+			if m := s.typ(mn); i <= m.N {
+				out = append(out, &gObj{Type: m.Name, ID: strconv.Itoa(i)})
+			}
+		}
+	}
+	return out
+}
+
 func (s *fedSpec) rootValue(r *fedField, args map[string]any) any {
 	t := s.typ(r.Type.Name)
 	if r.ArgID {
@@ -552,6 +723,9 @@ func (s *fedSpec) rootValue(r *fedField, args map[string]any) any {
 		if k < n {
 			n = k
 		}
+	}
+	if t.Abstract != "" {
+		return s.abstractObjects(t)[:n]
 	}
 	out := make([]any, 0, n)
 	for i := 1; i <= n; i++ {
